@@ -240,6 +240,8 @@ struct Case {
     autoescape: bool,
     /// `set_fallback_prefixes` configuration (empty = none)
     prefixes: Vec<String>,
+    /// custom delimiters: block start/end, variable start/end, comment start/end (None = default)
+    delims: Option<[String; 6]>,
     features: Vec<&'static str>,
 }
 
@@ -248,6 +250,17 @@ impl Case {
         let mut t = Tera::default();
         if !self.prefixes.is_empty() {
             t.set_fallback_prefixes(self.prefixes.clone()).map_err(|e| format!("set_fallback_prefixes: {e}"))?;
+        }
+        if let Some(d) = &self.delims {
+            t.set_delimiters(tera::Delimiters {
+                block_start: d[0].clone().into(),
+                block_end: d[1].clone().into(),
+                variable_start: d[2].clone().into(),
+                variable_end: d[3].clone().into(),
+                comment_start: d[4].clone().into(),
+                comment_end: d[5].clone().into(),
+            })
+            .map_err(|e| format!("set_delimiters: {e}"))?;
         }
         match catch(AssertUnwindSafe(|| t.add_raw_templates(self.templates.clone()))) {
             Ok(Ok(())) => Ok(t),
@@ -269,6 +282,7 @@ impl Case {
             "program": self.program,
             "autoescape": self.autoescape,
             "fallback_prefixes": self.prefixes,
+            "delimiters": self.delims,
         })
     }
     fn from_json(j: &serde_json::Value) -> Option<Case> {
@@ -277,7 +291,7 @@ impl Case {
         for (k, v) in j["ctx"].as_object()? {
             ctx.insert(k.clone(), tera_verif_harness::wire::decode(v.as_str()?)?);
         }
-        Some(Case { templates, ctx, program: j["program"].as_str().map(|s| s.to_string()), autoescape: j["autoescape"].as_bool().unwrap_or(false), prefixes: j["fallback_prefixes"].as_array().map(|a| a.iter().filter_map(|x| x.as_str().map(|s| s.to_string())).collect()).unwrap_or_default(), features: vec![] })
+        Some(Case { templates, ctx, program: j["program"].as_str().map(|s| s.to_string()), autoescape: j["autoescape"].as_bool().unwrap_or(false), prefixes: j["fallback_prefixes"].as_array().map(|a| a.iter().filter_map(|x| x.as_str().map(|s| s.to_string())).collect()).unwrap_or_default(), delims: j["delimiters"].as_array().and_then(|a| { let v: Vec<String> = a.iter().filter_map(|x| x.as_str().map(|s| s.to_string())).collect(); <[String; 6]>::try_from(v).ok() }), features: vec![] })
     }
 }
 
@@ -318,6 +332,11 @@ const TEXT_UNI: &[&str] = &["é", "日本", "ß", "😀", "ǆ", "\u{a0}", "İ"];
 const VAL_ASCII: &[&str] = &["", "x", "<b>", "a&b", "it's", "\"q\"", "<>&'\"", "plain text", "{{ x }}", "1 < 2 > 0", "tail&"];
 const VAL_UNI: &[&str] = &["é<", "日本&語", "😀'", "ß>ß", "\u{0}", "a\u{301}"];
 
+/// never form a delimiter (opening or closing) inside literal text
+fn sanitize(s: &str) -> String {
+    s.replace("{{", "{ {").replace("{%", "{ %").replace("{#", "{ #").replace("}}", "} }").replace("%}", "% }").replace("#}", "# }")
+}
+
 impl Gen<'_> {
     fn fresh(&mut self, p: &str) -> String {
         self.counter += 1;
@@ -334,7 +353,7 @@ impl Gen<'_> {
             }
         }
         // never form a delimiter
-        s.replace("{{", "{ {").replace("{%", "{ %").replace("{#", "{ #")
+        sanitize(&s)
     }
     fn value(&mut self, ascii: bool) -> String {
         if !ascii && self.rng.chance(1, 3) {
@@ -352,7 +371,7 @@ impl Gen<'_> {
             if let (Some(Op::Text(prev)), Op::Text(t)) = (out.last_mut(), &op) {
                 prev.push_str(t);
                 // a `{` at the end of one text and `{`/`%`/`#` at the start of the next
-                *prev = prev.replace("{{", "{ {").replace("{%", "{ %").replace("{#", "{ #");
+                *prev = sanitize(prev);
                 continue;
             }
             out.push(op);
@@ -606,6 +625,20 @@ fn wire_ops(ops: &[Op], parent: Option<&Vec<Op>>, out: &mut Vec<String>) {
 struct Cfg {
     ae: bool,
     prefix: &'static str,
+    /// 0 = default delimiters, 1 = `[% %] [[ ]] [# #]`, 2 = one 2-byte character each
+    delims: usize,
+}
+
+const DELIM_SETS: [[&str; 6]; 2] = [["[%", "%]", "[[", "]]", "[#", "#]"], ["§", "¶", "«", "»", "¿", "¡"]];
+
+/// re-spell a source printed with the default delimiters (generated texts never contain any of
+/// the six default delimiter strings nor any custom one)
+fn respell(src: &str, set: usize) -> String {
+    if set == 0 {
+        return src.to_string();
+    }
+    let d = DELIM_SETS[set - 1];
+    src.replace("{%", d[0]).replace("%}", d[1]).replace("{{", d[2]).replace("}}", d[3]).replace("{#", d[4]).replace("#}", d[5])
 }
 
 struct GenCase {
@@ -637,6 +670,9 @@ fn build_case(ops: &[Op], cfg: Cfg) -> GenCase {
     if !em.comps.is_empty() {
         templates.push((format!("comps{ext}"), em.comps.join("\n")));
     }
+    for t in templates.iter_mut() {
+        t.1 = respell(&t.1, cfg.delims);
+    }
     let str_source = templates[0].1.clone();
     // registered under the prefix; every reference (entry points, extends, include) keeps the
     // short name and resolves only through the fallback prefix
@@ -665,9 +701,13 @@ fn build_case(ops: &[Op], cfg: Cfg) -> GenCase {
     if !cfg.prefix.is_empty() {
         features.push("fallback_prefix");
     }
+    if cfg.delims != 0 {
+        features.push(if cfg.delims == 1 { "delimiters_ascii" } else { "delimiters_2byte_chars" });
+    }
+    let delims = (cfg.delims != 0).then(|| DELIM_SETS[cfg.delims - 1].map(|x| x.to_string()));
     let prefixes: Vec<String> = if cfg.prefix.is_empty() { vec![] } else { vec!["unused/".to_string(), cfg.prefix.to_string()] };
     GenCase {
-        case: Case { templates, ctx, program: Some(w.join(" ")), autoescape, prefixes, features },
+        case: Case { templates, ctx, program: Some(w.join(" ")), autoescape, prefixes, delims, features },
         entries,
         ops: ops.to_vec(),
     }
@@ -683,6 +723,7 @@ fn fixed_cases() -> Vec<(Case, Vec<Entry>)> {
                 ctx: ctx.into_iter().map(|(k, v)| (k.to_string(), v)).collect(),
                 program: None,
                 autoescape: tpls[0].0.ends_with(".html"),
+                delims: if tpls[0].0.starts_with("delims1") { Some(DELIM_SETS[0].map(|x| x.to_string())) } else if tpls[0].0.starts_with("delims2") { Some(DELIM_SETS[1].map(|x| x.to_string())) } else { None },
                 prefixes: if tpls.iter().any(|(n, _)| n.starts_with("themes/cool/")) { vec!["themes/missing/".to_string(), "themes/cool/".to_string()] } else { vec![] },
                 features: feats,
             },
@@ -792,6 +833,44 @@ fn fixed_cases() -> Vec<(Case, Vec<Entry>)> {
         ],
         vec!["fallback_prefix_fixed"],
     );
+    // component recursion right at the limit (20): every channel must agree at 17..=23 levels
+    for n in 17i64..=23 {
+        add(
+            &[
+                ("count.html", "{% component Countdown(n) %}{{ n }}{% if n > 0 %} {{<Countdown n={n - 1} />}}{% endif %}{% endcomponent Countdown %}"),
+                ("countpage.html", "page:{{<Countdown n={n} />}}|{% include \"countinc.html\" %}"),
+                ("countinc.html", "inc:{{<Countdown n={n - 1} />}}"),
+            ],
+            vec![("n", Value::from(n))],
+            vec![
+                Entry::Component { name: "Countdown".into(), body: None, autoescape: true },
+                Entry::Component { name: "Countdown".into(), body: None, autoescape: false },
+                t("countpage.html"),
+                t("countinc.html"),
+                Entry::Str { source: "{{<Countdown n={n} />}}".into(), autoescape: true },
+            ],
+            vec!["component_recursion_at_limit"],
+        );
+    }
+    // custom delimiters: sources that contain none of the default openers
+    for (name, d) in [("delims1.html", DELIM_SETS[0]), ("delims2.html", DELIM_SETS[1])] {
+        let src = format!("x {vs} a {ve}{bs} for i in range(end=2) {be}{vs} i {ve}{bs} endfor {be}{cs} c {ce} {{ }} %", bs = d[0], be = d[1], vs = d[2], ve = d[3], cs = d[4], ce = d[5]);
+        let src: &'static str = Box::leak(src.into_boxed_str());
+        let plain: &'static str = "plain text, no tag at all { } %";
+        let dflt: &'static str = "default-looking {{ a }} {% if a %}x{% endif %} stays text here";
+        add(
+            &[(name, src)],
+            vec![("a", Value::from("<é>"))],
+            vec![
+                t(name),
+                Entry::Str { source: src.into(), autoescape: true },
+                Entry::Str { source: src.into(), autoescape: false },
+                Entry::Str { source: plain.into(), autoescape: true },
+                Entry::Str { source: dflt.into(), autoescape: true },
+            ],
+            vec!["custom_delimiters_fixed"],
+        );
+    }
     // inheritance three levels, nested blocks, super() chains, blocks inside captures and loops
     add(
         &[
@@ -1017,7 +1096,9 @@ fn check_entry(tera: &Tera, entry: &Entry, ctx: &Context, stats: &mut Stats, rng
     // `Tera::one_off` = `render_str` on a default instance: same bytes when the source needs
     // nothing registered (no include, no component call)
     if let Entry::Str { source, autoescape } = entry {
-        if !source.contains("include") && !source.contains("{{<") && !source.contains("{% <") {
+        // (`one_off` always uses the default delimiters)
+        let default_delims = tera.render_str("{{ 1 }}{% if true %}{% endif %}{# c #}", &Context::new(), false).map(|s| s == "1").unwrap_or(false);
+        if default_delims && !source.contains("include") && !source.contains("{{<") && !source.contains("{% <") {
             let o = catch(AssertUnwindSafe(|| Tera::one_off(source, ctx, *autoescape)));
             stats.oracle_checks += 1;
             stats.count("one_off_compared");
@@ -1264,6 +1345,85 @@ fn strip_calls(model_line: &str) -> String {
     format!("{a} {c}")
 }
 
+// ------------------------------------------------------------------ concurrency burst
+/// N threads render recursive, busy components of depth 6..=10 at the same time on ONE shared
+/// `Tera`, round after round (a barrier starts each round): every result must be the sequential
+/// one.  A per-instance (instead of per-render) piece of render state — e.g. a shared recursion
+/// counter — makes renders that are each within the limits fail or differ when they overlap.
+fn concurrency_burst(rounds: usize, threads: usize) -> (u64, Option<(String, serde_json::Value)>) {
+    let templates: Vec<(String, String)> = vec![
+        (
+            "busy.html".into(),
+            "{% component Busy(n) %}{% set_global acc = 0 %}{% for i in range(end=1500) %}{% set_global acc = (acc + i * n) % 1000003 %}{% endfor %}{{ n }}:{{ acc }}<{% if n > 0 %}{{<Busy n={n - 1} />}}{% endif %}>{% endcomponent Busy %}".into(),
+        ),
+        ("busypage.html".into(), "{% set m = {\"a\": d, \"b\": d + 1, \"c\": d + 2} %}{{ m | values }}{{<Busy n={d} />}}{% include \"busyinc.html\" %}".into()),
+        ("busyinc.html".into(), "|inc {{<Busy n={d - 2} />}}".into()),
+    ];
+    let mut tera = Tera::default();
+    if let Err(e) = tera.add_raw_templates(templates.clone()) {
+        return (0, Some((format!("the concurrency templates are rejected: {e}"), json!({"stage": "corpus", "templates": templates}))));
+    }
+    let depths: Vec<i64> = (0..threads).map(|i| 6 + (i as i64 % 5)).collect();
+    let ctx_of = |d: i64| {
+        let mut c = Context::new();
+        c.insert_value("d", Value::from(d));
+        c
+    };
+    let sequential: Vec<(String, Vec<u8>)> = depths
+        .iter()
+        .map(|d| {
+            let r = run_policy(&tera, &Entry::Template("busypage.html".into()), &ctx_of(*d), Policy::All);
+            (r.class, r.accepted)
+        })
+        .collect();
+    let barrier = std::sync::Barrier::new(threads);
+    let renders = std::sync::atomic::AtomicU64::new(0);
+    let failure: std::sync::Mutex<Option<(usize, usize, String)>> = std::sync::Mutex::new(None);
+    std::thread::scope(|sc| {
+        for ti in 0..threads {
+            let (tera, barrier, renders, failure, sequential, depths) = (&tera, &barrier, &renders, &failure, &sequential, &depths);
+            sc.spawn(move || {
+                let ctx = ctx_of(depths[ti]);
+                let entry = Entry::Template("busypage.html".into());
+                for round in 0..rounds {
+                    barrier.wait();
+                    let r = run_policy(tera, &entry, &ctx, Policy::All);
+                    renders.fetch_add(1, std::sync::atomic::Ordering::Relaxed);
+                    if r.class != sequential[ti].0 || r.accepted != sequential[ti].1 {
+                        let mut f = failure.lock().unwrap();
+                        if f.is_none() {
+                            *f = Some((ti, round, format!("`{}` {:?}", r.class, String::from_utf8_lossy(&r.accepted).chars().take(80).collect::<String>())));
+                        }
+                    }
+                }
+            });
+        }
+    });
+    let n = renders.load(std::sync::atomic::Ordering::Relaxed);
+    let f = failure.into_inner().unwrap();
+    match f {
+        None => (n, None),
+        Some((ti, round, got)) => (
+            n,
+            Some((
+                format!(
+                    "a render running concurrently with {} others on one shared Tera differs from the same render run alone: thread {ti} (component depth {}), round {round}: got {got}, alone `{}`",
+                    threads - 1,
+                    depths[ti],
+                    sequential[ti].0
+                ),
+                json!({
+                    "case": {"templates": templates, "ctx": {"d": format!("i64:{}", depths[ti])}, "program": null, "autoescape": true, "fallback_prefixes": [], "delimiters": null},
+                    "entry": {"kind": "template", "name": "busypage.html"},
+                    "policy": "all",
+                    "detail": {"oracle": "concurrent == sequential", "threads": threads, "depths": depths, "rounds": rounds, "note": "the failure needs overlapping renders: --replay runs the 8-thread trials on this case; rerun the check to repeat the burst"},
+                    "rerun": "harness/target/release/c18 --replay <this file>",
+                }),
+            )),
+        ),
+    }
+}
+
 // ------------------------------------------------------------------ main
 fn replay(path: &str, env: &Env) {
     let text = std::fs::read_to_string(path).expect("replay file");
@@ -1358,6 +1518,21 @@ fn main() {
         }
     }
 
+    // ---- concurrency burst on one shared instance
+    {
+        let t0 = std::time::Instant::now();
+        let (n, fail) = concurrency_burst(env.budget(120, 1500), 8);
+        stats.concurrent_renders += n;
+        stats.oracle_checks += n;
+        report.count_n("concurrency_burst.renders", n);
+        report.notes.push(format!("concurrency burst: {n} overlapping renders of recursive components (depth 6..=10) on one shared Tera in {:.1} s", t0.elapsed().as_secs_f64()));
+        if let Some((what, replay)) = fail {
+            n_fail += 1;
+            let kind = if replay.get("stage").is_some() { "model-mismatch" } else { "property" };
+            report.violation(kind, what, replay);
+        }
+    }
+
     // ---- generated programs
     let n_cases = env.budget(1500, 150000);
     let seeds: Vec<u64> = (0..n_cases).map(|_| rng.next_u64()).collect();
@@ -1386,7 +1561,7 @@ fn main() {
                         let allow_fail = r.chance(1, 8);
                         let mut g = Gen { rng: &mut r, counter: 0, allow_fail };
                         let ops = g.ops(Flags { depth: 0, blocks_ok: true, nested_parent_ok: true, super_ok: false, body_ok: false, ascii: false }, 6);
-                        let cfg = Cfg { ae: autoescape, prefix: if idx % 3 == 2 { "themes/cool/" } else { "" } };
+                        let cfg = Cfg { ae: autoescape, prefix: if idx % 3 == 2 { "themes/cool/" } else { "" }, delims: match idx % 5 { 1 => 1, 3 => 2, _ => 0 } };
                         let autoescape = cfg;
                         let gc = build_case(&ops, autoescape);
                         let tera = match gc.case.tera() {
